@@ -67,6 +67,11 @@ def templates(depth):
     for op in AUG:
         A(("aug_self_%s" % AUGN[op], ["o.a %s 2" % op]))
         A(("aug_other_var_%s" % AUGN[op], ["x %s (o.a + 1)" % op]))
+    # the result is the very object already stored (a setter that skips 'unchanged' values must still release)
+    for n, body in (("add0", "o.a += 0"), ("sub0", "o.a -= 0"), ("mul1", "o.a *= 1"), ("floordiv1", "o.a //= 1"), ("pow1", "o.a **= 1"),
+                    ("or0", "o.a |= 0"), ("xor0", "o.a ^= 0"), ("lshift0", "o.a <<= 0"), ("rshift0", "o.a >>= 0"), ("and_self", "o.a &= -1")):
+        A(("aug_self_neutral_%s" % n, [body]))
+    A(("write_same_value", ["o.a = 0"]))
     A(("aug_self_multiline", ["o.a += (", "  1)"]))
     A(("aug_self_from_self", ["o.a += o.a"]))
     A(("aug_self_from_other_attr", ["o.a += o.b"]))
